@@ -25,6 +25,11 @@ type c01Params struct {
 	Server EPConf `json:"server"`
 	Seg    int    `json:"seg"`
 	Conns  int    `json:"conns"` // 1, or 2 when both sides have a cache (second should resume)
+	// Reconf: for the second connection one side (ReconfWho) is reconfigured to these suites (the caches stay):
+	// the session is resumed only if its suite is still enabled on both sides, otherwise the handshake is
+	// negotiated anew under the new configuration
+	Reconf    []uint16 `json:"reconf,omitempty"`
+	ReconfWho string   `json:"reconf_who,omitempty"`
 	C2S    int    `json:"c2s"`
 	S2C    int    `json:"s2c"`
 }
@@ -32,7 +37,7 @@ type c01Params struct {
 func (c01) ID() string    { return "C01" }
 func (c01) Level() string { return "exploration" }
 func (c01) Rule() string {
-	return "each case draws a (client, server) configuration pair from the seed: enabled suites (subset+order, nil=default), client key pairs (none/sign/sign+enc, trusted/untrusted/expired), the six client-auth policies, client CA set, ALPN lists (empty/disjoint/overlapping/h2-vs-http1.1), server name set or not, server identity (trusted/untrusted/expired/wrong name/none), InsecureSkipVerify, caches on/off, config used directly / Clone() / GetConfigForClient; stack tlcp or dtlcp; transport segmentation and task interleaving from the schedule. The oracle is an independent negotiation model. distinct = distinct (stack, configuration pair, outcome); non-trivial = handshake actually ran to an outcome on both sides"
+	return "each case draws a (client, server) configuration pair from the seed: enabled suites (subset+order, nil=default), client key pairs (none/sign/sign+enc, trusted/untrusted/expired), the six client-auth policies, client CA set, ALPN lists (empty/disjoint/overlapping/h2-vs-http1.1), server name set or not, server identity (trusted/untrusted/expired/wrong name/none), InsecureSkipVerify, caches on/off (second connection, optionally after one side was reconfigured to other suites), config used directly / Clone() / GetConfigForClient; stack tlcp or dtlcp; transport segmentation and task interleaving from the schedule. The oracle is an independent negotiation model. distinct = distinct (stack, configuration pair, outcome); non-trivial = handshake actually ran to an outcome on both sides"
 }
 func (c01) Components() (real, stub []string) {
 	return []string{"tlcp.Conn client+server (instrumented)", "dtlcp.Conn client+server (instrumented)", "lruSessionCache", "gmsm crypto"},
@@ -49,7 +54,8 @@ func (c01) Count(tier string) int {
 	return 3000
 }
 
-var alpnChoices = [][]string{nil, {"h2"}, {"http/1.1"}, {"h2", "http/1.1"}, {"http/1.1", "h2"}, {"foo"}, {"foo", "bar"}, {"bar", "foo", "h2"}}
+var alpnChoices = [][]string{nil, {"h2"}, {"http/1.1"}, {"h2", "http/1.1"}, {"http/1.1", "h2"}, {"foo"}, {"foo", "bar"}, {"bar", "foo", "h2"},
+	{"h2", "spdy/3.1"}, {"spdy/3.1", "h2", "baz"}, {"http/1.1", "qux"}, {"qux", "http/1.1", "quux"}, {"h2", "bar"}}
 
 func drawSuites(src *vs.Src) []uint16 {
 	switch src.Intn(6) {
@@ -139,6 +145,13 @@ func drawC01(src *vs.Src) *c01Params {
 	}
 	if p.Client.Cache != "" || p.Server.Cache != "" {
 		p.Conns = 2
+		if src.Bool(1, 3) {
+			p.ReconfWho = pickStr(src, []string{"server", "client"})
+			p.Reconf = drawSuites(src)
+			if p.Reconf == nil {
+				p.Reconf = []uint16{AllSuites[src.Intn(4)]}
+			}
+		}
 	}
 	p.Seg = src.Intn(3)
 	p.C2S = 1 + src.Intn(3000)
@@ -324,6 +337,14 @@ func (c01) Run(c *Case, src *vs.Src) *Result {
 		env.TCaches["s"], env.DCaches["s"] = tlcp.NewLRUSessionCache(8), dtlcp.NewLRUSessionCache(8)
 	}
 	model := Negotiate(&p.Client, &p.Server)
+	cli2, srv2 := p.Client, p.Server
+	switch p.ReconfWho {
+	case "server":
+		srv2.Suites = p.Reconf
+	case "client":
+		cli2.Suites = p.Reconf
+	}
+	models := []negoOut{model, Negotiate(&cli2, &srv2)}
 	outs := make([]*HSOut, p.Conns)
 	pairs := make([]*Pair, p.Conns)
 	// connections run one after the other: task "driver" starts the second pair when the first is finished
@@ -345,7 +366,7 @@ func (c01) Run(c *Case, src *vs.Src) *Result {
 		w2 := NewWorld(c.Seed+1, src)
 		w2.K.MaxElapsed = 600 * time.Second
 		env.W = w2
-		pairs[1] = NewPair(p.Stack, env, &p.Client, &p.Server, "c1", "s1", "client:1001", "server:443")
+		pairs[1] = NewPair(p.Stack, env, &cli2, &srv2, "c1", "s1", "client:1001", "server:443")
 		if pairs[1].Pipe != nil {
 			pairs[1].Pipe.C.Seg, pairs[1].Pipe.S.Seg = p.Seg, p.Seg
 		}
@@ -365,6 +386,13 @@ func (c01) Run(c *Case, src *vs.Src) *Result {
 			r.SimNs += 0
 		}
 		conn := fmt.Sprintf("conn%d", i)
+		wantResumed := i == 1 && p.Client.Cache != "" && p.Server.Cache != "" && models[0].OK &&
+			hasSuite(enabledSuites(cli2.Suites), models[0].Suite) && hasSuite(enabledSuites(srv2.Suites), models[0].Suite)
+		model := models[i]
+		if wantResumed {
+			// resumption keeps what the session fixed; the application protocol is negotiated per connection
+			model.OK, model.Suite, model.ServerPeer = true, models[0].Suite, models[0].ServerPeer
+		}
 		if reasons[i] != vs.Done {
 			r.Violate("not-ended", sigp+" not-ended "+reasons[i]+" model="+fmt.Sprint(model.OK),
 				"%s: run ended with %q, unfinished tasks %v (client ended=%v err=%v; server ended=%v err=%v); model: ok=%v %s",
@@ -391,7 +419,6 @@ func (c01) Run(c *Case, src *vs.Src) *Result {
 		if d := o.CheckAgreement(); d != "" {
 			r.Violate("disagree", sigp+" disagree", "%s: %s", conn, d)
 		}
-		wantResumed := i == 1 && p.Client.Cache != "" && p.Server.Cache != ""
 		if o.CCS.Resumed != wantResumed || o.SCS.Resumed != wantResumed {
 			r.Violate("resumption-flag", fmt.Sprintf("%s resumed client=%v server=%v want=%v", sigp, o.CCS.Resumed, o.SCS.Resumed, wantResumed),
 				"%s: DidResume client=%v server=%v, expected %v", conn, o.CCS.Resumed, o.SCS.Resumed, wantResumed)
